@@ -221,7 +221,7 @@ func (r *Runner) vecToken(got []float32, metric, prec string) string {
 
 func (r *Runner) mval(tok string) any {
 	if tok != "m1" && tok != "m2" {
-		return tok // a metadata value that names a graph node (auto-link profiles)
+		return r.id(tok) // a metadata value that names a graph node (auto-link profiles)
 	}
 	switch r.P.Variant % 3 {
 	case 0:
@@ -241,8 +241,8 @@ func (r *Runner) mtoken(v any) string {
 	}
 	if sv, ok := v.(string); ok {
 		for _, g := range r.P.GNodes {
-			if g == sv {
-				return sv
+			if r.id(g) == sv {
+				return g
 			}
 		}
 	}
@@ -448,11 +448,20 @@ func (r *Runner) ktoken(b []byte) string {
 	return "?(" + s + ")"
 }
 
+// idPrefix: in variant 2 every vector / node id carries the separator the engine uses internally between index name
+// and node id ("ix::n::a"), an id is an opaque string
+func (r *Runner) idPrefix() string {
+	if r.P.Variant%3 == 2 {
+		return "n::"
+	}
+	return ""
+}
+
 func (r *Runner) id(model string) string {
 	if m, ok := r.Minted[model]; ok {
 		return m
 	}
-	return model
+	return r.idPrefix() + model
 }
 
 func (r *Runner) modelID(real string) string {
@@ -461,7 +470,7 @@ func (r *Runner) modelID(real string) string {
 			return k
 		}
 	}
-	return real
+	return strings.TrimPrefix(real, r.idPrefix())
 }
 
 // tick guarantees that two consecutive graph operations get distinct wall-clock timestamps.
